@@ -15,6 +15,7 @@ package main
 import (
 	"bytes"
 	"compress/gzip"
+	"crypto/sha256"
 	"encoding/json"
 	"fmt"
 	"io"
@@ -54,15 +55,16 @@ type synInput struct {
 }
 
 type synRunner struct {
-	c       *lib.Ctx
-	scratch string
-	nextID  int
-	terms   []string
-	defs    strings.Builder
-	nDefs   int
-	nCases  int
-	shard   int
-	admit   map[string]int
+	c        *lib.Ctx
+	scratch  string
+	nextID   int
+	terms    []string
+	defs     strings.Builder
+	nDefs    int
+	nCases   int
+	distinct map[[32]byte]bool
+	shard    int
+	admit    map[string]int
 }
 
 func (s *synRunner) flush(force bool) {
@@ -368,6 +370,12 @@ func (s *synRunner) emit(in synInput, fsys fs.FS, mpds string, dirBefore, dirAft
 	s.terms = append(s.terms, fmt.Sprintf("{| c_id := %s; c_mode := %s; c_consolidate := %s;\n c_mpds := %s;\n c_cache := %s;\n o_err := %s; o_panic := %s;\n o_assets := %s;\n o_cache := %s |}",
 		id, mode, lib.Cbool(consolidate), mpds, cacheTerm(dirBefore, in.Layouts), lib.Cbool(out.err != nil), lib.Cbool(out.panic != ""), assetsTerm(out.assets), cacheAfter))
 	s.nCases++
+	// distinct cases: by the model's input (mode, MPD list, cache before) and the observed outcome
+	h := sha256.Sum256([]byte(mode + "|" + mpds + "|" + cacheTerm(dirBefore, in.Layouts) + "|" + assetsTerm(out.assets)))
+	if s.distinct == nil {
+		s.distinct = map[[32]byte]bool{}
+	}
+	s.distinct[h] = true
 	return id
 }
 
@@ -623,12 +631,12 @@ func runC15(c *lib.Ctx) error {
 
 	c.Res.Evaluations = s.nCases + nB
 	c.Res.ModelCases = s.nCases
-	c.Res.DistinctNontrivial = s.nCases + nB
+	c.Res.DistinctNontrivial = len(s.distinct) + nBDistinct
 	c.Res.Rule = "Part S: asset layouts rendered with mp4ff (one per loader/admission branch and both sides of each condition, random combinations, " +
 		"groups of assets), each started in scan / loadAsset-only / write / cache / rewrite mode and with damaged cache files (deleted, truncated, " +
 		"byte flipped, plain JSON, cut JSON, empty file); one case = one loader run compared with the Coq model. Part B: complete servers over the " +
 		"bundled assets, one evaluation = one HTTP response byte-compared between the scanning server and a cache-started server. " +
-		"distinct = all (every case is a different (layout, mode, damage) or (instance, URL)); non-trivial = all"
+		"distinct = loader runs with distinct (mode, MPD list, cache directory, resulting asset tables), counted by hash, plus distinct (instance, URL) pairs of part B whose scan response was 200; a run is non-trivial when it loads at least one MPD"
 	return nil
 }
 
